@@ -27,7 +27,7 @@ From BigNum Require Import SpecBytes BytesLemmas Radix RadixText RadixKernels Ra
 From BigNum Require Import Sign SpecSign SignProofs Rand SpecRand RandProofs.
 From BigNum Require Import Prim SpecPrim PrimProofsCast PrimProofs PrimProofsFloat PrimProofsToFloat
   PrimProofsFromFloat InstPrim.
-From BigNum Require Import BitDigits BitDigitsProofs Iter IterProofs Bytes BytesProofs SignedBytesProofs.
+From BigNum Require Import BitDigits BitDigitsProofs Iter IterProofs Bytes BytesProofs SignedBytesProofs InstIter.
 Import ListNotations.
 Open Scope Z_scope.
 
@@ -676,8 +676,8 @@ Print Assumptions C14_conversions_never_panic.
 
 (** * C09 — byte / digit-vector conversions and the digit iterators never panic *)
 Theorem C14_bytes_never_panic :
-  (forall u, canon u -> total (uto_bytes_le u) /\ total (uto_bytes_be u) /\ total (uto_u32_digits u)) /\
-  (forall x, icanon x -> total (ito_bytes_le x) /\ total (ito_bytes_be x) /\ total (ito_u32_digits x) /\
+  (forall u, canon u -> total (uto_bytes_le u) /\ total (uto_bytes_be u) /\ total (uto_u32_digits Extracted.iter u)) /\
+  (forall x, icanon x -> total (ito_bytes_le x) /\ total (ito_bytes_be x) /\ total (ito_u32_digits Extracted.iter x) /\
                          total (to_signed_bytes_le x) /\ total (to_signed_bytes_be x)) /\
   (forall bs, inb 256 bs -> total (ufrom_bytes_le bs) /\ total (ufrom_bytes_be bs) /\
                             total (from_signed_bytes_le bs) /\ total (from_signed_bytes_be bs) /\
@@ -686,10 +686,10 @@ Proof.
   split; [|split]; intros; repeat split; eapply ret_never_panics.
   - apply uto_bytes_le_spec; auto.
   - apply uto_bytes_be_spec; auto.
-  - apply uto_u32_digits_spec; auto.
+  - apply uto_u32_digits_spec; auto using iter_params_ok.
   - apply ito_bytes_le_spec; auto.
   - apply ito_bytes_be_spec; auto.
-  - apply ito_u32_digits_spec; auto.
+  - apply ito_u32_digits_spec; auto using iter_params_ok.
   - apply to_signed_bytes_le_spec; auto.
   - apply to_signed_bytes_be_spec; auto.
   - apply ufrom_bytes_le_spec; auto.
@@ -703,10 +703,10 @@ Print Assumptions C14_bytes_never_panic.
 
 (* every state reachable from `iter_u32_digits()` by any interleaving of calls *)
 Theorem C14_iter_never_panics : forall s, inv s ->
-  total (it_len s) /\ total (it_size_hint s) /\ total (it_count s).
+  total (it_len Extracted.iter s) /\ total (it_size_hint Extracted.iter s) /\ total (it_count Extracted.iter s).
 Proof.
   intros s Hs. repeat split; eapply ret_never_panics;
-    [apply it_len_spec|apply it_size_hint_spec|apply it_count_spec]; auto.
+    [apply it_len_spec|apply it_size_hint_spec|apply it_count_spec]; auto using iter_params_ok.
 Qed.
 Print Assumptions C14_iter_never_panics.
 (* The remaining models of C09 (unew, ufrom_slice, it_next, ...), C17 (serde) and C19 (sign
